@@ -27,6 +27,35 @@ fn panic_text(e: Box<dyn std::any::Any + Send>) -> String {
 
 /// Runs `jobs` through `f` in forked children. `f(state, job) -> Value` is called under
 /// catch_unwind. Returns one Value per job: f's value, or {"crash": "panic"|"abort"|"timeout", ...}.
+/// replaces every sub-value nested deeper than `left` levels by the string "<deep>"; true if anything was cut
+pub fn cut_deep(v: &mut Value, left: usize) -> bool {
+    match v {
+        Value::Array(a) => {
+            if left == 0 {
+                *v = json!("<deep>");
+                return true;
+            }
+            let mut cut = false;
+            for x in a.iter_mut() {
+                cut |= cut_deep(x, left - 1);
+            }
+            cut
+        }
+        Value::Object(o) => {
+            if left == 0 {
+                *v = json!("<deep>");
+                return true;
+            }
+            let mut cut = false;
+            for (_, x) in o.iter_mut() {
+                cut |= cut_deep(x, left - 1);
+            }
+            cut
+        }
+        _ => false,
+    }
+}
+
 pub fn run_isolated<S, I, F>(jobs: &[Value], limits: &Limits, init: I, f: F) -> Vec<Value>
 where
     I: Fn() -> S,
@@ -85,6 +114,13 @@ where
                 };
                 if let Some(o) = v.as_object_mut() {
                     o.insert("ms".to_string(), json!(t0.elapsed().as_millis() as u64));
+                }
+                // serde_json (and Python's json) refuse documents nested deeper than ~128 levels: a deeply nested
+                // AST or reply is cut there, so that the result line stays readable (it is still a result, not a crash)
+                if cut_deep(&mut v, 100) {
+                    if let Some(o) = v.as_object_mut() {
+                        o.insert("deep".to_string(), json!(true));
+                    }
                 }
                 let line = serde_json::to_string(&v).unwrap_or_else(|e| {
                     json!({"crash": "panic", "msg": format!("result not serialisable: {}", e)}).to_string()
